@@ -45,6 +45,9 @@ def main(argv):
             print(f"unknown tier {tier}")
             return 2
         seed = int(os.environ.get("VERIF_SEED", "0") or 0)
+        # whole-run wall-clock budget: a state space that a (broken) library makes unbounded must not
+        # keep the check running forever; what was explored until then is reported as usual
+        os.environ.setdefault("EGMC_DEADLINE", str(time.time() + (900 if tier == "quick" else 4 * 3600)))
         if tier == "thorough":
             # every pool / space of the thorough tier runs under a wall-clock budget; if it is hit the
             # evidence says so (exhaustive: false, what was completed below the cap)
